@@ -36,6 +36,8 @@ def run(prog, chk):
     clip_result_stored_whole(prog, chk)
     from props import C16
     C16.extent_accumulation(prog, chk)  # repeated bodies: every rendered pass is counted in the extent
+    from props import C10
+    C10.registration(prog, chk)  # an element placed against a target that is not resolved yet has no (or a wrong) box in the extent
     transform_fold(prog, chk)
     config_is_incremental(prog, chk)
     from props import geomalg
